@@ -54,6 +54,12 @@ class PEval:
             txt = ast.unparse(e)
             if txt in env:
                 return env[txt]
+            # a class-level literal read through cls / self
+            if isinstance(e.value, ast.Name) and e.value.id in ('cls', 'self') and getattr(self.f, 'cls', None) in self.m.classes:
+                for c_ in self.m.mro.get(self.f.cls, [self.f.cls]):
+                    v_ = self.m.classes[c_].attrs.get(e.attr) if c_ in self.m.classes else None
+                    if isinstance(v_, (ast.Constant, ast.Dict, ast.Tuple, ast.List)):
+                        return self.ev(v_, {})
             # module.global
             if isinstance(e.value, ast.Name) and e.value.id in self.m.mods:
                 g = self.m.modglobals.get(e.value.id, {}).get(e.attr)
